@@ -134,4 +134,12 @@ REG = {
   note="Trusted: TLC, Go's zone database for offsets (zone rules are inputs, not specified).",
   technique="TLA+ calendar specification model-checked with TLC; exhaustive replay (UTC) + TLC trace validation under several zones",
   design="DESIGN.md section 4/C19"),
+ "C11": dict(
+  text="FCall.CallOutcome states the arity rules (fixed, variadic, spread), the per-kind conversions (truncation, element-wise "
+       "slices, nil for interface parameters, identical types) and context injection; TLC checks the arity invariants and "
+       "computes the outcome of 861 k (signature, arguments, spread, return) cases; each is executed against a function "
+       "synthesised with reflect.MakeFunc that records every invocation.",
+  note="Trusted: TLC, reflect.MakeFunc / FuncOf, value projection. Signatures are limited to two parameters.",
+  technique="TLA+ call-bridge specification model-checked with TLC; exhaustive replay against reflectively synthesised recording functions",
+  design="DESIGN.md section 4/C11"),
 }
